@@ -355,4 +355,18 @@ class _RowsLoc(Model):
             if not is_numlike(val):
                 raise Unsupported('label-based assignment of this value')
             return self.frame.set_by_labels(ctx, idx[0], idx[1], val)
+        if isinstance(idx, tuple) and len(idx) == 2 and isinstance(idx[0], SRowSeries) and idx[0].dtype == 'bool' \
+                and isinstance(idx[1], str) and is_numlike(val):
+            # .loc[bool Series, col] = scalar: the mask is aligned on the index; for a mask taken from this very frame that is
+            # row by row
+            fr, m = self.frame, idx[0]
+            if m.frame.fid != fr.fid:
+                raise Unsupported('boolean mask taken from another frame')
+            if idx[1] not in fr.cols:
+                raise Unsupported('mask-based assignment creating a column')
+            old = fr.cols[idx[1]]
+            at = m.at
+            fr.cols[idx[1]] = memo1(lambda i, old=old: ite_val(z3.And(fr.present(i), to_bool_term(at(i))), val, old(i)))
+            ctx.ghost.setdefault('row_writes', []).append((idx[1], m, val))
+            return None
         raise Unsupported('.loc[...] = shape on a row frame')
